@@ -107,6 +107,14 @@ int main(void) {
             if (ac) krb5_auth_con_free(ctx, ac);
             if (server) krb5_free_principal(ctx, server);
             if (!rc || kt) krb5_kt_close(ctx, kt);
+        } else if (!strcmp(tok[0], "pac") && nt == 4) {
+            /* pac <PAC> <etype of the key> <key> : parse the PAC and verify its server signature with the service key */
+            unsigned char *pb, *kb; int np = unhex(tok[1], &pb), nk = unhex(tok[3], &kb);
+            krb5_pac pac = NULL; krb5_keyblock key = {0, atoi(tok[2]), nk, kb};
+            krb5_error_code prc = krb5_pac_parse(ctx, pb, np, &pac), vrc = -1;
+            if (!prc) vrc = krb5_pac_verify(ctx, pac, 0, NULL, &key, NULL);
+            printf("{\"rc\":%d,\"parse\":%d,\"out\":\"\"}\n", (int)vrc, (int)prc);
+            if (pac) krb5_pac_free(ctx, pac);
         } else if (!strcmp(tok[0], "client") && nt == 4) {
             /* client <user@REALM> <password> <service@REALM> : MIT's client gets a TGT with the password and a service ticket from the KDC
              * of KRB5_CONFIG, then builds an AP-REQ for the service (krb5_mk_req_extended) */
